@@ -3,6 +3,7 @@ package mcrt
 import (
 	"context"
 	"reflect"
+	"time"
 )
 
 type chanInfo struct {
@@ -50,12 +51,55 @@ func recvDir(ch any) reflect.Value {
 	return reflect.ValueOf(ch)
 }
 
+// conv turns the value of a send statement into the channel's element type (the rewriter passes the value
+// expression as written, so an untyped constant arrives with its default type).
+func conv[T any](val any) T {
+	var v T
+	if val == nil {
+		return v
+	}
+	if x, ok := val.(T); ok {
+		return x
+	}
+	rv, rt := reflect.ValueOf(val), reflect.TypeOf(&v).Elem()
+	if rv.Type().ConvertibleTo(rt) {
+		return rv.Convert(rt).Interface().(T)
+	}
+	return val.(T) // panics with a telling message
+}
+
+// SendCaseOf marks a channel as the send case of a select statement.
+type SendCaseOf struct{ Ch any }
+
+// SendCase wraps the channel of a `case ch <- v:` clause for Select.
+func SendCase(ch any) SendCaseOf { return SendCaseOf{ch} }
+
+// SendNow performs the send of a select case that Select already chose.
+func SendNow[T any, V any](ch chan<- T, val V) {
+	v := conv[T](any(val))
+	s := sched()
+	if s == nil {
+		if cur == nil {
+			ch <- v
+		}
+		return
+	}
+	ci := s.chanInfo(ch)
+	s.running.release(&ci.rel)
+	if ci.closed {
+		ch <- v // panics for real, as in production
+		return
+	}
+	select {
+	case ch <- v:
+	default:
+		s.infra("select send case chosen but channel not ready")
+	}
+}
+
 // Send is `ch <- v`.
 func Send[T any, V any](ch chan<- T, val V) {
-	var v T
-	if any(val) != nil {
-		v = any(val).(T)
-	}
+	v := conv[T](any(val))
 	s := sched()
 	if s == nil {
 		if cur == nil {
@@ -156,8 +200,8 @@ func Close[T any](ch chan<- T) {
 	ci.closed = true
 }
 
-// Select decides a receive-only select statement: it returns the index of the case to run, or -1 for
-// default. Cases are receive channels.
+// Select decides a select statement: it returns the index of the case to run, or -1 for default. Cases are
+// receive channels, or send channels wrapped in SendCase.
 func Select(hasDefault bool, chans ...any) int {
 	s := sched()
 	if s == nil {
@@ -171,16 +215,31 @@ func Select(hasDefault bool, chans ...any) int {
 	}
 	vals := make([]reflect.Value, len(chans))
 	infos := make([]*chanInfo, len(chans))
+	send := make([]bool, len(chans))
 	for i, c := range chans {
+		if sc, ok := c.(SendCaseOf); ok {
+			send[i] = true
+			c = sc.Ch
+		}
 		vals[i] = reflect.ValueOf(c)
 		if !vals[i].IsNil() {
 			infos[i] = s.chanInfo(c)
+			if send[i] && vals[i].Cap() == 0 {
+				s.infra("send case on an unbuffered channel under the scheduler is not modelled: " + where().String())
+			}
 		}
 	}
 	ready := func() []int {
 		var r []int
 		for i := range vals {
-			if !vals[i].IsNil() && s.recvReady(vals[i], infos[i]) {
+			if vals[i].IsNil() {
+				continue
+			}
+			if send[i] {
+				if infos[i].closed || vals[i].Len() < vals[i].Cap() {
+					r = append(r, i)
+				}
+			} else if s.recvReady(vals[i], infos[i]) {
 				r = append(r, i)
 			}
 		}
@@ -215,4 +274,47 @@ func WithCancel(parent context.Context) (context.Context, context.CancelFunc) {
 		}
 		cancel()
 	}
+}
+
+// timeoutCtx is a cancellable context whose deadline is a virtual timer.
+type timeoutCtx struct {
+	context.Context
+	timedOut *bool
+	deadline time.Time
+}
+
+func (c timeoutCtx) Err() error {
+	if err := c.Context.Err(); err != nil {
+		if *c.timedOut {
+			return context.DeadlineExceeded
+		}
+		return err
+	}
+	return nil
+}
+
+func (c timeoutCtx) Deadline() (time.Time, bool) { return c.deadline, true }
+
+// WithTimeout is context.WithTimeout on virtual time: a helper thread waits for the virtual timer (which fires only
+// when nothing else can move) or for the context to be cancelled, whichever comes first.
+func WithTimeout(parent context.Context, d time.Duration) (context.Context, context.CancelFunc) {
+	if sched() == nil {
+		return context.WithTimeout(parent, d)
+	}
+	inner, cancel := WithCancel(parent)
+	timedOut := false
+	timer := After(d)
+	GoNamed("context-timeout", func() {
+		if Select(false, timer, inner.Done()) == 0 {
+			RecvNow(timer)
+			timedOut = true
+			cancel()
+		}
+	})
+	return timeoutCtx{inner, &timedOut, time.Now().Add(d)}, cancel
+}
+
+// WithDeadline is context.WithDeadline on virtual time (the deadline is taken relative to the real clock once).
+func WithDeadline(parent context.Context, t time.Time) (context.Context, context.CancelFunc) {
+	return WithTimeout(parent, time.Until(t))
 }
